@@ -216,12 +216,12 @@ class SpecModule:
         self.contracts.append(c)
         return c
 
-    def lemma(self, name, vars, hyps, goal, induct=None, hints=(), properties=(), use=(), pattern=None, general=None):
+    def lemma(self, name, vars, hyps, goal, induct=None, hints=(), properties=(), use=(), pattern=None, general=None, fuel=3):
         """lemma over spec functions.  vars: name->Ty; hyps/goal: expression strings; induct: name of the variable
         (ListT/DictT) for structural induction -- the hypothesis is instantiated for the tail, universally over the
         other variables listed in `general`."""
         self.lemmas.append(dict(name=name, vars=vars, hyps=list(hyps), goal=goal, induct=induct, hints=list(hints),
-                                properties=list(properties), use=list(use), pattern=pattern, general=general))
+                                properties=list(properties), use=list(use), pattern=pattern, general=general, fuel=fuel))
 
     def registry(self):
         return {(c.file, c.qual): c for c in self.contracts}
